@@ -38,9 +38,20 @@ def build_case(cid, rng):
         call_next_g = ("g%d(deps, *b + %d%s)%s" % (i + 1, i, SA, aw)) if not last else ("*b + s.len() as u64" if with_lt else "*b")
         nbox = rng.randint(1, 3)
         boxes = " ".join("let b = ::std::boxed::Box::new(x + %d);" % k for k in range(nbox))
-        body_t = "{ %s%s %s }" % (boxes, yld, call_next_t)
-        body_g = "{ %s%s %s }" % (boxes, yld, call_next_g)
+        # a statically delegated helper with a mock option (inert in this build) that returns `impl Iterator`
+        use_iter = (not is_async) and rng.random() < 0.4
+        if use_iter:
+            mock = rng.choice(["mockall", "mockall = true", "mock_api = It%dMock, unimock = true" % i, "mockall, export = false"])
+            L.append("#[::entrait::entrait(pub It%d, %s)] /*@it%d*/\nfn it%d<D>(deps: &D, x: u64) -> impl ::core::iter::Iterator<Item = u64> { (0..(x %% 3)).map(|v| v * 2) }" % (i, mock, i, i))
+            boxes_t = boxes + " let _e: u64 = deps.it%d(x).sum();" % i
+            boxes_g = boxes + " let _e: u64 = it%d(deps, x).sum();" % i
+        else:
+            boxes_t = boxes_g = boxes
+        body_t = "{ %s%s %s }" % (boxes_t, yld, call_next_t)
+        body_g = "{ %s%s %s }" % (boxes_g, yld, call_next_g)
         bound = ("impl " + nxt_trait) if not last else "impl ::core::marker::Sized"
+        if use_iter:
+            bound = "(%s + It%d)" % (bound, i)
         if kind == "fn":
             L.append("#[::entrait::entrait(pub L%d%s)] /*@inv%d*/\n%sfn l%d%s(deps: &%s, x: u64%s) -> u64 %s" % (i, OPT, i, asy, i, G, bound, SP, body_t))
         elif kind == "mod":
@@ -48,25 +59,25 @@ def build_case(cid, rng):
         elif kind == "concrete":
             # concrete dependency: the generated leaf trait is itself entraited (nested expansion) for Impl<T>
             L.append("#[::entrait::entrait(pub L%d%s)] /*@inv%d*/\n%sfn l%d%s(deps: &App, x: u64%s) -> u64 { let deps2 = ::entrait::Impl::new(*deps); let deps = &deps2; %s%s %s }" % (
-                i, OPT, i, asy, i, G, SP, boxes, yld, call_next_t))
+                i, OPT, i, asy, i, G, SP, boxes_t, yld, call_next_t))
         elif kind == "impl_future":
             # hand-desugared async method: `fn .. -> impl Future`, statically delegated to T
             fut = "impl ::core::future::Future<Output = u64>%s" % ("" if no_send else " + ::core::marker::Send")
             L.append("#[::entrait::entrait(delegate_by = Self%s)] /*@inv%d*/\npub trait L%d { fn l%d%s(&self, x: u64%s) -> %s; }" % (OPT, i, i, i, G, SP, fut))
-            L.append("impl L%d for App { fn l%d%s(&self, x: u64%s) -> %s { async move { let deps = ::entrait::Impl::new(App); %s%s %s } } }" % (
-                i, i, G, SP, fut, boxes, yld, call_next_t))
+            L.append("impl L%d for App { fn l%d%s(&self, x: u64%s) -> %s { async move { let deps = ::entrait::Impl::new(App); let deps = &deps; %s%s %s } } }" % (
+                i, i, G, SP, fut, boxes_t, yld, call_next_t))
         elif kind == "leaf_trait":
             # hand-written trait, static delegation to T (= the app itself implements it)
             L.append("#[::entrait::entrait(delegate_by = Self%s)] /*@inv%d*/\npub trait L%d { %sfn l%d%s(&self, x: u64%s) -> u64; }" % (OPT, i, i, asy, i, G, SP))
             # the app's implementation needs the rest of the chain through Impl<App>: provide it on App via a free fn on a fresh Impl
-            L.append("impl L%d for App { %sfn l%d%s(&self, x: u64%s) -> u64 { let deps = ::entrait::Impl::new(App); %s%s %s } }" % (
-                i, asy, i, G, SP, boxes, yld, call_next_t))
+            L.append("impl L%d for App { %sfn l%d%s(&self, x: u64%s) -> u64 { let deps = ::entrait::Impl::new(App); let deps = &deps; %s%s %s } }" % (
+                i, asy, i, G, SP, boxes_t, yld, call_next_t))
         else:
             L.append("#[::entrait::entrait(L%dImpl, delegate_by = DelegateL%d%s)] /*@inv%d*/\npub trait L%d { %sfn l%d%s(&self, x: u64%s) -> u64; }" % (i, i, OPT, i, i, asy, i, G, SP))
             L.append("pub struct T%d;\n#[::entrait::entrait] /*@blk%d*/\nimpl L%dImpl for T%d { pub %sfn l%d%s(deps: &%s, x: u64%s) -> u64 %s }" % (i, i, i, i, asy, i, G, bound, SP, body_t))
             L.append("impl DelegateL%d<Self> for App { type Target = T%d; }" % (i, i))
         if kind in ("leaf_trait", "concrete", "impl_future"):
-            GT.append("%sfn g%d<%sD>(deps: &D, x: u64%s) -> u64 { let deps2 = ::entrait::Impl::new(App); let deps = &deps2; %s%s %s }" % (asy, i, "'a, " if with_lt else "", SP, boxes, yld, call_next_g))
+            GT.append("%sfn g%d<%sD>(deps: &D, x: u64%s) -> u64 { let deps2 = ::entrait::Impl::new(App); let deps = &deps2; %s%s %s }" % (asy, i, "'a, " if with_lt else "", SP, boxes_g, yld, call_next_g))
         else:
             GT.append("%sfn g%d<%sD>(deps: &D, x: u64%s) -> u64 %s" % (asy, i, "'a, " if with_lt else "", SP, body_g))
     wrap = (lambda c: "::vrt::block_on(%s)" % c) if is_async else (lambda c: c)
